@@ -186,6 +186,8 @@ class Instantiator:
     def order(self, o):
         import pydiverse.transform as pdt
         from pydiverse.transform._internal.tree.col_expr import ColExpr
+        if o[0] == "shared":          # one order key object reused in several tables (C10)
+            return self.expr(o)
         x = self.expr(o[1])
         if not isinstance(x, ColExpr):
             x = pdt.lit(x)
